@@ -277,6 +277,11 @@ def run(ctx: Ctx, rs: RuleSet, tier: str):
              'Buildables whatever else differs', 1)
   c10.buildable_facets(ctx, rs, 'INDEP.diff-tags', only={'tags'})
 
+  # ---- tags attached by annotation: the type hints belong to this callable
+  from fdlstatic.rules import c19
+  c19.cache_premise(ctx, rs, 'CACHE.type-hints',
+                    ['fiddle._src.signatures._type_hints_cache'])
+
   rule = 'SHAPE.tagged-value'
   rs.declare(rule, 'assigning a TaggedValue merges tags then stores the '
              'unwrapped value (or nothing); building it returns the value or '
